@@ -50,8 +50,8 @@ COMPONENTS = {
     "stub": ["mpi4py.MPI -> SimComm/SimWorld", "wall clock -> simulated clock (driver.time)", "stdout -> buffer"],
     "harness": ["subclass of the repo propagator overriding propagate/init_prop_data (monitor + fault overlay), no source hook"],
 }
-REQUIRED_PROBES = {"quick": ["qr_nontrivial", "sr_changed_population", "driver_runs", "ad_entry_runs", "driver_block_transitions_replayed"],
-                   "thorough": ["qr_nontrivial", "sr_changed_population", "driver_runs", "ad_entry_runs", "walker_killed", "fault_fired", "driver_block_transitions_replayed"]}
+REQUIRED_PROBES = {"quick": ["qr_nontrivial", "sr_changed_population", "driver_runs", "ad_entry_runs", "driver_block_transitions_replayed", "cpmc_one_body_divisions_monitored"],
+                   "thorough": ["qr_nontrivial", "sr_changed_population", "driver_runs", "ad_entry_runs", "walker_killed", "fault_fired", "driver_block_transitions_replayed", "cpmc_one_body_divisions_monitored"]}
 
 
 def menu_entry(k):
@@ -68,13 +68,17 @@ def menu_entry(k):
     norb = 4
     n_walkers = rng.choice([4, 6, 8])
     n_batch = rng.choice([1, 2])
-    kind = rng.choice(["plain", "plain", "ad_fwd", "ad_rev", "driver", "driver", "driver"])
+    kind = rng.choice(["plain", "plain", "ad_fwd", "ad_rev", "driver", "driver", "driver", "cpmc"])
     m = dict(
         wt=wt, trial=trial, nelec=list(nelec), norb=norb, nchol=rng.choice([2, 3]), n_walkers=n_walkers, n_batch=n_batch,
         dt=rng.choice([0.005, 0.05, 0.2]), n_exp_terms=6,
         n_prop_steps=rng.choice([1, 2, 3]), n_ene_blocks=rng.choice([1, 2, 3]), n_sr_blocks=rng.choice([1, 2]),
         kind=kind,
     )
+    if kind == "cpmc":
+        # constrained-path propagators divide by the stored overlap in both one-body half steps
+        m.update(entry="plain", ad_mode=None, prop=rng.choice(["propagator_cpmc", "propagator_cpmc", "propagator_cpmc_nn"]), trial=rng.choice(["uhf_cpmc", "ghf_cpmc", "ghf_cpmc"]),
+                 lattice="chain", n_sites=rng.choice([3, 4]), nelec=rng.choice([[1, 1], [2, 1], [2, 2]]), dt=rng.choice([0.01, 0.05]), wt="unrestricted")
     if kind in ("ad_fwd", "ad_rev"):
         m["entry"] = rng.choice(["ad", "ad_nosr", "ad_norot", "ad_nosr_norot"])
         m["ad_mode"] = "forward" if kind == "ad_fwd" else "reverse"
@@ -102,8 +106,11 @@ def gen_cfg(seed, index, tier):
     m["spin_dep"] = m["wt"] == "unrestricted" and rng.random() < 0.5
     m["jax_seed"] = rng.randrange(1, 2**20)
     m["n_calls"] = rng.choice([2, 3])
+    if m["kind"] == "cpmc":
+        m.update(u=rng.choice([2.0, 4.0, 8.0]), u_1=rng.choice([0.5, 1.0]), stagger=rng.choice([0.0, 0.3, 1.0]), noise=rng.choice([0.0, 0.3]), theta=rng.choice([0.3, 0.785, 0.0]), chol="hubbard")
+        m["nchol"] = m["n_sites"]
     faults = []
-    if rng.random() < 0.25:
+    if rng.random() < 0.25 and m["kind"] != "cpmc":
         nsteps = max(1, m["n_prop_steps"] * m["n_ene_blocks"] * m["n_sr_blocks"])
         for _ in range(rng.choice([1, 2])):
             if rng.random() < 0.6:
@@ -198,7 +205,11 @@ def execute(cfg, ctx):
     import jax.numpy as jnp  # noqa: F401
     from ad_afqmc import sampling
 
-    s = lab.build_system(spec_of(cfg))
+    if cfg["kind"] == "cpmc":
+        s = lab.build_cpmc_system({k: cfg[k] for k in ("lattice", "n_sites", "nelec", "u", "u_1", "dt", "n_walkers", "prop", "trial", "chol", "stagger", "noise", "theta", "ham_seed")}, harness=True)
+        ctx.probe("cpmc_runs", 1)
+    else:
+        s = lab.build_system(spec_of(cfg))
     smp = sampling.sampler(cfg["n_prop_steps"], cfg["n_ene_blocks"], cfg["n_sr_blocks"], cfg.get("n_blocks", 1))
     faults = cfg.get("faults") or []
     info = {}
@@ -240,6 +251,9 @@ def execute(cfg, ctx):
     ctx.count("field_faults_fired", int(mon["verif_n_faults"]))
     ctx.count("walkers_killed", int(mon["verif_n_killed"]))
     ctx.count("sampler_calls", cfg["n_calls"])
+    if cfg["kind"] == "cpmc":
+        ctx.count("cpmc_one_body_divisions_monitored", int(mon.get("verif_n_onebody", 0)))
+        ctx.probe("cpmc_one_body_divisions_monitored", int(mon.get("verif_n_onebody", 0)))
     return {
         "digest": arr_hash(np.frombuffer("|".join(digest_parts).encode(), np.uint8)),
         "nontrivial": info.get("max_detR_dev", 0.0) > 1e-6,
